@@ -191,11 +191,13 @@ class Model:
         Returns:
           Pair variable information.
         """
-        if hasattr(self,'pairs'):
+        lp_vars_string = ''
+        if (hasattr(self,'pairs') and 
+            all(hasattr(pair, 'lp_var') for pair_row in self.pairs for pair in pair_row)):
             lp_vars_string = 'Main lp decision variables:\n'
             for pair_row in self.pairs:
                 for pair in pair_row:
-                    if (pair.lp_var.varValue > 0.9):
+                    if (pair.lp_var.varValue is not None and pair.lp_var.varValue > 0.9):
                         lp_vars_string += '1 '
                     else:
                         lp_vars_string += '0 '
@@ -205,7 +207,7 @@ class Model:
         if hasattr(self,'project_closures'):
             lp_vars_string += 'Project closure variables:\n'
             for var in self.project_closures:
-                if (var.varValue > 0.9):
+                if (var.varValue is not None and var.varValue > 0.9):
                     lp_vars_string += '1 '
                 else:
                     lp_vars_string += '0 '
